@@ -318,6 +318,8 @@ def gen_policy(rng, wf, kind='complete', opts=None):
         loops = sorted(rng.sample(range(lo, hi + 1), min(n, hi - lo + 1)))
         pol['crash_plan'] = [[L, rng.choice([-1, 0, 0, 0, 1, 1, 1, 2, 2, 3]), rng.choice([None, None, 0, 1, 2, 5])]
                              for L in loops]
+        if kind in ('crash', 'cmdcrash'):
+            pol['p_noise'] = 0.0        # complete outcomes, no duplicate / stale / out-of-order messages (as 'complete')
         if kind.startswith('cmdcrash'):
             pol['cmds'] = ['hold', 'release', 'hold', 'release', 'set_hold_point', 'release_hold_point',
                            'stop_point', 'stop_task', 'stop_clean', 'stop_now', 'pause', 'resume']
